@@ -104,6 +104,10 @@ class World:
             else:
                 big = np.concatenate([arr, arr]) if len(arr) else arr
                 arr = big[: len(rows)]
+        elif kind == "swapped":
+            # the same values in the other byte order: another dtype (NumPy compares byte order), never a reinterpretation of the bytes
+            if arr.dtype.itemsize > 1 and arr.dtype.names is None:
+                arr = arr.astype(arr.dtype.newbyteorder())
         elif kind == "strided" and ndim == 1 and tag != 12:
             big = np.zeros(2 * len(rows) + 1, dtp)
             big[::2][: len(rows)] = flat
@@ -379,7 +383,7 @@ def gen_history(world: World, kind: str, length: int, weights=None, irregular_bi
             t2 = tag if rng.random() < max(0.9, valid_bias) else rng.choice(SUPPORTED[kind])
             cols2 = ncols if rng.random() < max(0.9, valid_bias) else rng.randint(1, 3)
             nd = (2 if rng.random() < 0.8 or cols2 != 1 else 1) if digital else (1 if rng.random() < 0.93 else 2)
-            arr = world.mk_array(t2, world.mk_values(t2, m, cols2, digital), nd, rng.choice(["owned", "view"]))
+            arr = world.mk_array(t2, world.mk_values(t2, m, cols2, digital), nd, rng.choice(["owned", "view"] if rng.random() < 0.93 else ["swapped"]))
             ts = None
             if kind != "spectrum":
                 if irregular:
@@ -446,7 +450,7 @@ def gen_history(world: World, kind: str, length: int, weights=None, irregular_bi
             t2 = tag if rng.random() < max(0.92, valid_bias) else rng.choice(SUPPORTED[kind])
             cols2 = ncols if rng.random() < max(0.9, valid_bias) else rng.randint(1, 3)
             nd = (2 if rng.random() < 0.5 or cols2 != 1 else 1) if digital else (1 if rng.random() < 0.93 else 2)
-            arr = world.mk_array(t2, world.mk_values(t2, m, cols2, digital), nd, rng.choice(["owned", "owned", "view"]))
+            arr = world.mk_array(t2, world.mk_values(t2, m, cols2, digital), nd, rng.choice(["owned", "owned", "view"] if rng.random() < 0.93 else ["swapped"]))
             cp = rng.random() < 0.6
             st = rng.choice([None, None, None, 0, 0, 1, 2, m, m + 1, -1, -3])
             cnt = rng.choice([None, None, None, 0, 1, 2, max(0, m - (st or 0)), max(0, m - (st or 0)), m + 1, int(o.sample_count), -1])
